@@ -685,8 +685,10 @@ func main() {
 		d.enum = h + *enumBase
 		fmt.Fprintf(&all, "ev|reset|%d|%s\n", hseed, kind)
 		runScenario(d, kind)
-		if kind != "storm" {
+		if kind != "storm" && kind != "rcparallel" {
+			d.drain()
 			d.finalSync()
+			d.strandedCheck()
 		}
 		d.checkDups()
 		d.w.mon.final(d.w)
@@ -778,6 +780,44 @@ func (d *driver) shutdown() {
 		}
 		if li.log != nil {
 			li.log.CloseCache()
+		}
+	}
+}
+
+// drain: every instance whose sequencer is still running gets two fault-free rounds, so that every
+// submission it accepted has an outcome by the end of the history
+func (d *driver) drain() {
+	for _, li := range d.insts {
+		d.w.mu.Lock()
+		ok := li.log != nil && li.running && !li.in.dead && li.parked
+		if ok {
+			li.in.plan = nil
+			li.in.holdAt = -1
+			li.in.crashAt = -1
+		}
+		d.w.mu.Unlock()
+		if ok {
+			d.tsFn = d.nextTs
+			d.round(li)
+			if d.alive(li) {
+				d.round(li)
+			}
+		}
+	}
+}
+
+// strandedCheck (C17): no submitter is left without an outcome on an instance that is alive or
+// has stopped in an orderly way (a crashed process owes its clients nothing)
+func (d *driver) strandedCheck() {
+	d.w.mu.Lock()
+	defer d.w.mu.Unlock()
+	for _, x := range d.waiters {
+		if x.inst.in.dead {
+			continue
+		}
+		d.w.mon.checks["C17.stranded"]++
+		if !x.done {
+			d.w.mon.fail("C17 submitter %d of instance %d was left without an outcome (sequencer running: %v) after two further fault-free rounds", x.wid, x.inst.in.id, x.inst.running)
 		}
 	}
 }
